@@ -477,6 +477,106 @@ def _all_paths(stmts: List[ast.stmt], pred: Callable[[ast.stmt], bool]) -> bool:
     return False
 
 
+# producers of integers the user can make arbitrarily large (constant expressions are unbounded python ints)
+UNBOUNDED_INT_PRODUCERS = {'exact_eval', 'calculate_ops_alignment', 'calculate_address', 'calculate_reserved_bit_size', 'calculate_times',
+                           'get_flip', 'get_jump', 'get_word_address', 'get_flip_value', 'get_return_address'}
+SAFE_INT_FORMATTERS = {'hex', 'bin', 'oct', 'int_to_str', 'len', 'type', 'repr_short'}
+
+
+def rule_int_format(rep: Report, repo: Repo, clo: List[Tuple[str, str, ast.FunctionDef]]) -> None:
+    rep.rule('C14.INT-FORMAT', 'CPython refuses to convert an integer above 4300 digits to a decimal string (ValueError) and constants are '
+             'unbounded, so on the assemble() call closure no value that comes from evaluating a user expression - the result of '
+             'exact_eval / calculate_* / get_flip.. , an element of the word list handed to the writer, the operands of `**`, an Expr\'s '
+             'int value - is formatted in decimal (f-string placeholder, str(), repr(), %d) unless through hex()/bin()/oct() or the '
+             'length-safe helper; the error path is where such values are printed, so a ValueError there is the generic failure', 4)
+    n_sites = 0
+    extra = [(EXPR, '_pow', repo.func(EXPR, '_pow'))] if repo.has_func(EXPR, '_pow') and not any(q == '_pow' for _, q, _ in clo) else []
+    for rel, q, fn in list(clo) + extra:          # _pow is reached through the operator table, not by name
+        tainted: Set[str] = set()
+        # parameters that ARE such values
+        if q == '_pow':
+            tainted |= {a.arg for a in fn.args.args}
+        if q == 'Writer.add_data':
+            tainted |= {'data'}
+        changed = True
+        while changed:
+            changed = False
+            for n in walk_no_nested(fn):
+                tgt: List[str] = []
+                val: Optional[ast.AST] = None
+                if isinstance(n, ast.Assign) and len(n.targets) == 1 and isinstance(n.targets[0], ast.Name):
+                    tgt, val = [n.targets[0].id], n.value
+                elif isinstance(n, ast.AnnAssign) and isinstance(n.target, ast.Name) and n.value is not None:
+                    tgt, val = [n.target.id], n.value
+                elif isinstance(n, (ast.For, ast.comprehension)) and isinstance(n.target, ast.Name):
+                    tgt, val = [n.target.id], n.iter
+                if not tgt or val is None:
+                    continue
+                src = False
+                for x in ast.walk(val):
+                    if isinstance(x, ast.Call) and dotted(x.func).split('.')[-1] in UNBOUNDED_INT_PRODUCERS:
+                        src = True
+                    if isinstance(x, ast.Name) and x.id in tainted:
+                        src = True
+                # a value wrapped by a safe formatter or a length is no longer the integer itself
+                if isinstance(val, ast.Call) and dotted(val.func) in SAFE_INT_FORMATTERS:
+                    src = False
+                if src and tgt[0] not in tainted:
+                    tainted.add(tgt[0])
+                    changed = True
+        sinks: List[Tuple[ast.AST, str]] = []
+        for n in walk_no_nested(fn):
+            if isinstance(n, ast.FormattedValue):
+                sinks.append((n.value, 'f-string'))
+            elif isinstance(n, ast.Call) and dotted(n.func) in ('str', 'repr') and len(n.args) == 1:
+                sinks.append((n.args[0], dotted(n.func) + '()'))
+            elif isinstance(n, ast.BinOp) and isinstance(n.op, ast.Mod) and isinstance(n.left, ast.Constant) and isinstance(n.left.value, str):
+                sinks.append((n.right, '%-format'))
+        for expr, how in sinks:
+            if isinstance(expr, ast.Call) and dotted(expr.func) in SAFE_INT_FORMATTERS:
+                continue
+            direct = isinstance(expr, ast.Name) and expr.id in tainted
+            # Expr.__str__: the int value of the node itself
+            self_value = q == 'Expr.__str__' and norm(expr) == 'self.value' and any(
+                isinstance(i, ast.If) and 'isinstance(self.value, int)' in norm(i.test) and any(expr is y for b in i.body for y in ast.walk(b))
+                for i in ast.walk(fn))
+            arith = isinstance(expr, ast.BinOp) and any(isinstance(x, ast.Name) and x.id in tainted for x in ast.walk(expr))
+            if direct or self_value or arith:
+                n_sites += 1
+                rep.fail('C14.INT-FORMAT', f'{q}:{how} {norm(expr)[:40]}', f'{norm(expr)[:60]} is an unbounded user integer formatted in decimal '
+                         f'(ValueError above 4300 digits -> generic failure)', f'{rel}:{getattr(expr, "lineno", fn.lineno)} {q}',
+                         expected='hex()/bin()/oct() or the length-safe helper')
+        if tainted:
+            rep.ok('C14.INT-FORMAT', f'{q}:tainted {sorted(tainted)}', f'{len(sinks)} formatting sites examined', f'{rel}:{fn.lineno} {q}')
+    # the helper itself falls back instead of raising
+    if repo.has_func(EXPR, 'int_to_str'):
+        h = repo.func(EXPR, 'int_to_str')
+        tr = [t for t in ast.walk(h) if isinstance(t, ast.Try)]
+        ok = bool(tr) and any('ValueError' in handler_types(hd) and any(isinstance(r, ast.Return) and isinstance(r.value, ast.Call)
+                              and dotted(r.value.func) in ('hex', 'bin', 'oct') for r in ast.walk(hd)) for hd in tr[0].handlers)
+        rep.check(ok, 'C14.INT-FORMAT', 'int_to_str:fallback', 'str() with a ValueError fallback to hex()', f'{EXPR}:{h.lineno}')
+    sv = repo.func(EXPR, 'Expr.__str__')
+    ints = [norm(r.value) for i in ast.walk(sv) if isinstance(i, ast.If) and 'isinstance(self.value, int)' in norm(i.test)
+            for r in i.body if isinstance(r, ast.Return)]
+    rep.check(bool(ints) and all(v.split('(')[0] in SAFE_INT_FORMATTERS for v in ints), 'C14.INT-FORMAT', 'Expr.__str__:int-branch', str(ints),
+              f'{EXPR}:{sv.lineno}', expected='the int value printed through a safe formatter')
+
+
+def rule_parser_callbacks(rep: Report, repo: Repo) -> None:
+    rep.rule('C14.CALLBACKS', 'the sly error callbacks (FJLexer.error, FJParser.error) run with whatever token the library hands over - none '
+             'at end of input: inside them no inherited sly method is called except the recovery API (errok / restart); '
+             'Parser.line_position / index_position look their argument up in a table of production values and raise KeyError for '
+             'anything else', 2)
+    for cls in ('FJLexer', 'FJParser'):
+        own = set(repo.methods(PARSER, cls))
+        fn = repo.func(PARSER, f'{cls}.error')
+        inherited = sorted({dotted(c.func) for c in calls(fn) if dotted(c.func).startswith('self.') and dotted(c.func).count('.') == 1
+                            and dotted(c.func).split('.')[1] not in own})
+        bad = [x for x in inherited if x.split('.')[1] not in ('errok', 'restart')]
+        rep.check(not bad, 'C14.CALLBACKS', f'{cls}.error', f'inherited calls {inherited}', f'{PARSER}:{fn.lineno} {cls}.error',
+                  expected='no library lookups in the error callback (the token may be None)')
+
+
 def rule_funnel(rep: Report, repo: Repo) -> None:
     rep.rule('C14.FUNNEL', 'assemble() lets library exceptions pass unchanged and wraps everything else', 1)
     asm = repo.func(ASM, 'assemble')
@@ -510,6 +610,8 @@ def check(rep: Report, repo: Optional[Repo] = None) -> None:
     rule_raises(rep, repo, clo)
     rule_write_last(rep, repo)
     rule_progress(rep, repo, clo)
+    rule_int_format(rep, repo, clo)
+    rule_parser_callbacks(rep, repo)
     rep.assumptions += ['OSError (unreadable source / unwritable output path) is environmental and outside "for every source text"',
                         'memory_width reaching assemble() is one the Writer accepted (8/16/32/64)',
                         'sly itself raises nothing on arbitrary token streams (it reports through the error callbacks)']
